@@ -205,6 +205,93 @@ Fixpoint enc (fl : flags) (fuel : nat) (h : heap) (seen : list id) (v : val) : o
     end
   end.
 
+(* ---------------------------------------------------------------------------------- *)
+(* THE ASSUMPTION THE refs TABLE RELIES ON.  `refs` is keyed by id(obj): an entry is only
+   meaningful while the object it was made for is alive - "every object registered in refs stays
+   alive until encoding ends".  In `enc` this holds by construction: the identities are those of
+   the heap, which does not change during encoding, and the translator checks on every run that
+   Action.to_dict() hands out the LIVE context / start_event_arguments (Gen: action_to_dict_live).
+   `enc_tmp` is the encoder one gets when the Action branch encodes TEMPORARY copies of these two
+   dicts (to_dict() returning `.copy()`): the k-th temporary lives at identity `alloc k` and is
+   freed right after it was encoded, so the allocator may hand the same identity out again.  With
+   an allocator that never reuses an identity during one encoding (`alloc_fresh`) the output is
+   restored correctly; with CPython's reuse a later temporary is taken for an earlier one and is
+   written as a {"__type": "ref"} to it (Serial_examples: tmp_reuse_refuted). *)
+Definition alloc_fresh (alloc : nat -> id) (h : heap) : Prop :=
+  (forall k, lookup h (alloc k) = None) /\ (forall k k', alloc k = alloc k' -> k = k').
+
+Fixpoint enc_tmp (alloc : nat -> id) (fl : flags) (fuel : nat) (h : heap) (st : list id * nat) (v : val)
+  : option (etree * (list id * nat)) :=
+  match fuel with
+  | O => None
+  | S f =>
+    (* encode the object stored at i under the identity `ident` *)
+    let enc_at (ident i : id) (st : list id * nat) : option (etree * (list id * nat)) :=
+      if memz ident (fst st) then Some (ER ident, st)
+      else
+        match lookup h i with
+        | None => None
+        | Some n =>
+          let generic :=
+            match map_st (enc_tmp alloc fl f h) st (kids n) with
+            | None => None
+            | Some (es, (s', k')) => Some (EN ident (hd n) es, (ident :: s', k'))
+            end in
+          match hd n with
+          | HList =>
+            match map_st (enc_tmp alloc fl f h) st (kids n) with
+            | None => None
+            | Some (es, st') => Some (EL es, st')
+            end
+          | HPartial _ => Some (EP PNone, st)
+          | HOther _ => None
+          | HRegex _ _ => if fx_regex fl then generic else None
+          | HDict ks => if dict_keys_ok fl ks then generic else None
+          | HAction _ =>
+            (* to_dict(): the two dicts are fresh copies, everything else is the live value *)
+            match kids n with
+            | [k0; k1; k2; k3; VO c; VO a; k6] =>
+              match map_st (enc_tmp alloc fl f h) st [k0; k1; k2; k3] with
+              | None => None
+              | Some (es1, (s1, n1)) =>
+                match lookup h c, lookup h a with
+                | Some nc, Some na =>
+                  let tc := alloc n1 in
+                  match (if memz tc s1 then Some (ER tc, (s1, S n1))
+                         else match map_st (enc_tmp alloc fl f h) (s1, S n1) (kids nc) with
+                              | None => None
+                              | Some (esc, (s2, n2)) => Some (EN tc (hd nc) esc, (tc :: s2, n2))
+                              end) with
+                  | None => None
+                  | Some (ec, (s2, n2)) =>
+                    let ta := alloc n2 in
+                    match (if memz ta s2 then Some (ER ta, (s2, S n2))
+                           else match map_st (enc_tmp alloc fl f h) (s2, S n2) (kids na) with
+                                | None => None
+                                | Some (esa, (s3, n3)) => Some (EN ta (hd na) esa, (ta :: s3, n3))
+                                end) with
+                    | None => None
+                    | Some (ea, (s3, n3)) =>
+                      match enc_tmp alloc fl f h (s3, n3) k6 with
+                      | None => None
+                      | Some (e6, (s4, n4)) => Some (EN ident (hd n) (es1 ++ [ec; ea; e6]), (ident :: s4, n4))
+                      end
+                    end
+                  end
+                | _, _ => None
+                end
+              end
+            | _ => None
+            end
+          | _ => generic
+          end
+        end in
+    match v with
+    | VP p => Some (EP p, st)
+    | VO i => enc_at i i st
+    end
+  end.
+
 Fixpoint count_refs (e : etree) (i : id) : Z :=
   match e with
   | ER k => if k =? i then 1 else 0
@@ -252,6 +339,12 @@ Fixpoint render (fl : flags) (cnt : id -> Z) (e : etree) : json :=
 (* state_to_json up to json.dumps; `limit` = recursion limit *)
 Definition encode (fl : flags) (limit : nat) (h : heap) (r : val) : option json :=
   match enc fl limit h [] r with
+  | None => None
+  | Some (e, _) => Some (render fl (count_refs e) e)
+  end.
+
+Definition encode_tmp (alloc : nat -> id) (fl : flags) (limit : nat) (h : heap) (r : val) : option json :=
+  match enc_tmp alloc fl limit h ([], O) r with
   | None => None
   | Some (e, _) => Some (render fl (count_refs e) e)
   end.
